@@ -4,7 +4,7 @@ import numpy as np
 from ..runner import Acc, HarnessError
 from ..refmodel import Fmt, MODES, ROUNDINGS, OVERFLOWS, dy_float, scaled
 from .. import alphabet as al
-from ..common import mk, codes, flags, reset_class_state, Fxp
+from ..common import warm, mk, codes, flags, reset_class_state, Fxp
 from .c01 import qval, in_core, _nw_list
 
 ID = 'C05'
@@ -40,6 +40,9 @@ def shards(tier, seed):
         for signed in (True, False):
             out.append({'part': 'I', 'signed': signed, 'nw': nw, 'scalar': nw <= (4 if tier == 'quick' else 6)})
     return out
+
+
+HISTS = ('copy_resized64', 'copy_resized', 'view_resized', 'resized_back', 'used')
 
 
 def relation(rounding, c, num, s):
@@ -94,7 +97,7 @@ def judge(acc, fmt, rounding, overflow, ds, part, mono, carrier='farr'):
         if not ds:
             return
         vals = None
-    elif carrier in ('farr', 'setitem'):
+    elif carrier in ('farr', 'setitem') or carrier.startswith('hist:'):
         vals = np.array([dy_float(d) for d in ds], dtype=np.float64)
     else:
         ds = [d for d in ds if d[1] == 0]
@@ -128,6 +131,28 @@ def judge(acc, fmt, rounding, overflow, ds, part, mono, carrier='farr'):
                 x[i] = dy_float(d)
                 acc.transitions += 1
             got, fl = codes(x), flags(x)
+        elif carrier.startswith('hist:'):
+            # the destination is a live object with a history; the store is a whole-array call / set_val afterwards
+            how = carrier[5:]
+            x = mk(np.zeros(len(ds)), fmt, rounding, overflow)
+            if how == 'copy_resized64':                 # a shallow copy of it was widened to 64 bits
+                y = x.copy()
+                y.resize(n_word=64)
+            elif how == 'copy_resized':
+                y = x.copy()
+                y.resize(n_word=fmt.n_word + 9, n_frac=fmt.n_frac + 3)
+            elif how == 'view_resized':                 # a view of it was widened and written
+                y = x[0:1]
+                y.resize(n_word=fmt.n_word + 9)
+                y.set_val(0, raw=True, index=0)
+            elif how == 'resized_back':                 # it was itself 64 bits wide for a while
+                x.resize(n_word=64)
+                x.resize(n_word=fmt.n_word)
+            elif how == 'used':
+                warm(x)
+            x.set_val(vals) if how != 'used' else x(vals)
+            got, fl = codes(x), flags(x)
+            acc.transitions += 3
         elif carrier == 'int':
             got, fl = [], (False, False, False)
             for d in ds:
@@ -249,6 +274,9 @@ def run_shard(sh):
                 judge(acc, fmt, r, 'wrap', inr, 'S', False)
                 if nw <= 3:
                     judge(acc, fmt, r, 'saturate', ds, 'S', True, 'setitem')
+                if nw <= 4:
+                    for h in HISTS:
+                        judge(acc, fmt, r, 'saturate', ds, 'S', True, 'hist:' + h)
                 if nw <= 5:
                     for cr in ('np:float32', 'np:float16', 'np:int8', 'np:int16', 'np:int32', 'np:uint8', 'np:uint16',
                                'fxp:equal', 'fxp:set_val', 'fxp:ctor', 'fxp:like()'):
@@ -278,6 +306,9 @@ def run_shard(sh):
                     judge(acc, fmt, r, 'wrap', inr, 'G', False)
                 if nf < 0:
                     judge(acc, fmt, r, 'saturate', ds, 'G', True, 'iarr')
+                if nw in (8, 16, 32, 52):
+                    for h in HISTS:
+                        judge(acc, fmt, r, 'saturate', ds, 'G', True, 'hist:' + h)
                 if nw in (8, 12, 16, 24, 32):
                     for cr in ('np:float32', 'np:float16', 'np:int8', 'np:int16', 'np:int32', 'np:uint16', 'fxp:equal', 'fxp:ctor'):
                         judge(acc, fmt, r, 'saturate', ds, 'G', True, cr)
